@@ -476,7 +476,23 @@ func c06(c *Ctx) {
 			v, ok := constInt(info, r)
 			return ok && v == 0
 		}))
-		s, _ := g.ReachFromEntry(func(y *GNode) bool { return z[y] }, nil)
+		// … or the path is one on which len is known to be zero already (if q.len == 0 { return … })
+		lenZero := func(e *GEdge) bool {
+			return edgeImplies(e, func(cnd ast.Expr, pol int) bool {
+				l, op, r, ok := cmpNorm(cnd, pol)
+				if !ok {
+					return false
+				}
+				if v, isC := constInt(info, r); isC && isField(info, l, fLen) {
+					return (op == token.EQL && v == 0) || (op == token.LEQ && v == 0) || (op == token.LSS && v == 1)
+				}
+				if v, isC := constInt(info, l); isC && isField(info, r, fLen) {
+					return (op == token.EQL && v == 0) || (op == token.GEQ && v == 0) || (op == token.GTR && v == 1)
+				}
+				return false
+			})
+		}
+		s, _ := g.ReachFromEntry(func(y *GNode) bool { return z[y] }, lenZero)
 		c.Check(len(z) > 0 && !s[g.Exit], "R5", "sdk/log|(*queue).Flush|len = 0 on every path", at(ix.M, fn.Pos()), "flushed records are not handed out again", "Flush leaves len unchanged: the same records are flushed again")
 	}
 
@@ -506,15 +522,28 @@ func c06(c *Ctx) {
 			return hit
 		}
 		good := len(exports) == 1 && len(closes) == 1
+		var flushVar types.Object
 		if good {
 			x := exports[0]
 			d1, _ := g.DominatedByNodes(x, closes)
 			d2, _ := g.DominatedByEdges(x, doneEdge)
-			// argument is q.Flush()
+			// argument is q.Flush(), directly or through a local that holds its result (remaining := q.Flush()) — then the Flush
+			// itself is what must come after the poller has stopped
 			argOK := false
 			inspectNoLit(x.N, func(n ast.Node) bool {
-				if call, ok := n.(*ast.CallExpr); ok && callToDecl(info, bexp)(call) && len(call.Args) == 2 && callToDecl(info, flush)(unparen(call.Args[1])) {
-					argOK = true
+				if call, ok := n.(*ast.CallExpr); ok && callToDecl(info, bexp)(call) && len(call.Args) == 2 {
+					if callToDecl(info, flush)(unparen(call.Args[1])) {
+						argOK = true
+					} else if v := objOf(info, call.Args[1]); v != nil {
+						if def := g.LocalDef(v); def != nil && callToDecl(info, flush)(unparen(def)) {
+							if fx := g.NodeOf(def); fx != nil {
+								f1, _ := g.DominatedByNodes(fx, closes)
+								f2, _ := g.DominatedByEdges(fx, doneEdge)
+								argOK = f1 && f2
+								flushVar = v
+							}
+						}
+					}
 				}
 				return true
 			})
@@ -535,7 +564,29 @@ func c06(c *Ctx) {
 					if !doneEdge(e) {
 						continue
 					}
-					seenNoExp, _ := g.ReachFromEdge(e, func(y *GNode) bool { return toSet(exports)[y] })
+					// (a path on which the flushed batch is known to be empty has nothing to export)
+					nothing := func(ed *GEdge) bool {
+						if ed.From == e.From && ed != e {
+							return true
+						}
+						return flushVar != nil && edgeImplies(ed, func(cnd ast.Expr, pol int) bool {
+							l, op, r, ok := cmpNorm(cnd, pol)
+							if !ok {
+								return false
+							}
+							isLen := func(x ast.Expr) bool {
+								return isLenOf(info, x, func(y ast.Expr) bool { return objOf(info, y) == flushVar })
+							}
+							if v, isC := constInt(info, r); isC && isLen(l) {
+								return (op == token.EQL && v == 0) || (op == token.LEQ && v == 0) || (op == token.LSS && v == 1)
+							}
+							if v, isC := constInt(info, l); isC && isLen(r) {
+								return (op == token.EQL && v == 0) || (op == token.GEQ && v == 0) || (op == token.GTR && v == 1)
+							}
+							return false
+						})
+					}
+					seenNoExp, _ := g.Reach([]*GNode{e.From}, func(y *GNode) bool { return toSet(exports)[y] }, nothing)
 					seenAll, _ := g.ReachFromEdge(e, nil)
 					for _, sd := range sds {
 						if seenNoExp[sd] {
